@@ -1,8 +1,8 @@
-HOOK_COMMITS = ["49c272c"]
+HOOK_COMMITS = ["49c272c", "af26913", "e6c7bbc"]
 NOTES = ("All checks: ./check <id> --tier quick|thorough. Each run rebuilds the Go harness from /repo's working tree "
          "with -tags verif, re-checks the Lean theorems of the property and runs the correspondence. "
          "KNOWN_FINDINGS.txt lists recorded and fixed defects.")
 # properties whose check is registered in MANIFEST.json
-CLAIMED = ["C01", "C02", "C03", "C04", "C05", "C06", "C07", "C09", "C10", "C13", "C16", "C17", "C18", "C19", "C20"]
+CLAIMED = ["C01", "C02", "C03", "C04", "C05", "C06", "C07", "C08", "C09", "C10", "C13", "C15", "C16", "C17", "C18", "C19", "C20"]
 _UC = "check under construction in this round (will be claimed once its theorem and correspondence exist)"
 NOT_APPLICABLE = {f"C{i:02d}": _UC for i in range(1, 21)}
